@@ -28,23 +28,24 @@ CONSTANTS Size,            \* Size[a]: bytes a combined member adds to its batch
           MaxFaults,       \* system calls that may fail in one behaviour
           FaultCalls,      \* classes that may fail: subset of {"open","write","short","link","sync","close","rename","unlink"}
           CrashOn,         \* BOOLEAN: process crash enabled
+          RetryOn,         \* BOOLEAN: after a crash the process restarts (no clean-up) and every Put is retried
           BugPrecedence, BugLockLeak
 
 VARIABLES dir, ino, fdt,                 \* file system
           progs, pc, opi, myfd, mybat, werr, cerr, after, idx, hit,     \* executors (writers and timers)
           batchLock, wbatch, bat,        \* linuxWriter / syncBatch
-          res, acked, faults, panic, dblClose, crashed
+          res, acked, faults, panic, dblClose, crashed, restarted
 fsvars == <<dir, ino, fdt>>
 pvars == <<progs, pc, opi, myfd, mybat, werr, cerr, after, idx, hit>>
 wvars == <<batchLock, wbatch, bat>>
-mvars == <<res, acked, faults, panic, dblClose, crashed>>
+mvars == <<res, acked, faults, panic, dblClose, crashed, restarted>>
 vars == <<fsvars, pvars, wvars, mvars>>
 
 -----------------------------------------------------------------------------
 (* Executors: writers 1..NW, one timer per batch (NW + b). *)
 NW == Len(CHOOSE p \in ProgChoices : TRUE)
 Writers == 1..NW
-MaxBat == 6
+MaxBat == 10
 Timers == (NW + 1)..(NW + MaxBat)
 Execs == Writers \cup Timers
 Bat0 == [lock |-> 0, fd |-> 0, cnt |-> 0, size |-> 0, ready |-> "nil", err |-> FALSE, faulted |-> FALSE]
@@ -57,7 +58,7 @@ Init == /\ dir = [nm \in Names |-> 0] /\ ino = <<>> /\ fdt = <<>>
         /\ werr = [x \in Execs |-> FALSE] /\ cerr = [x \in Execs |-> FALSE]
         /\ after = [x \in Execs |-> ""] /\ idx = [x \in Execs |-> 0] /\ hit = [x \in Execs |-> FALSE]
         /\ batchLock = 0 /\ wbatch = 0 /\ bat = <<>>
-        /\ res = <<>> /\ acked = {} /\ faults = MaxFaults /\ panic = FALSE /\ dblClose = FALSE /\ crashed = "no"
+        /\ res = <<>> /\ acked = {} /\ faults = MaxFaults /\ panic = FALSE /\ dblClose = FALSE /\ crashed = "no" /\ restarted = FALSE
 
 Alive == crashed = "no" /\ ~panic
 Op(t) == progs[t][opi[t]]
@@ -84,7 +85,7 @@ Fetch(t) ==
                /\ acked' = IF o.k = "del" THEN acked \ {o.as[1]} ELSE acked     \* a delete in progress voids the ack
   /\ mybat' = [mybat EXCEPT ![t] = 0] /\ werr' = [werr EXCEPT ![t] = FALSE] /\ cerr' = [cerr EXCEPT ![t] = FALSE]
   /\ hit' = [hit EXCEPT ![t] = FALSE] /\ idx' = [idx EXCEPT ![t] = 0]
-  /\ UNCHANGED <<fsvars, wvars, progs, myfd, after, res, faults, panic, dblClose, crashed>>
+  /\ UNCHANGED <<fsvars, wvars, progs, myfd, after, res, faults, panic, dblClose, crashed, restarted>>
 
 -----------------------------------------------------------------------------
 (* syncBatch.intSync, run by executor x on batch b = mybat[x]; continues at after[x] *)
@@ -98,7 +99,7 @@ IntSync1(x) ==      \* fdatasync
                /\ bat' = [bat EXCEPT ![b].err = TRUE, ![b].faulted = TRUE]
                /\ hit' = [hit EXCEPT ![x] = TRUE]
   /\ pc' = [pc EXCEPT ![x] = "is2"]
-  /\ UNCHANGED <<fsvars, progs, opi, myfd, mybat, werr, cerr, after, idx, batchLock, wbatch, res, acked, panic, dblClose, crashed>>
+  /\ UNCHANGED <<fsvars, progs, opi, myfd, mybat, werr, cerr, after, idx, batchLock, wbatch, res, acked, panic, dblClose, crashed, restarted>>
 
 IntSync2(x) ==      \* close(fd); close(ready); timer.Stop()
   /\ pc[x] = "is2"
@@ -116,7 +117,7 @@ IntSync2(x) ==      \* close(fd); close(ready); timer.Stop()
         /\ panic' = (panic \/ bat[b].ready = "closed")                         \* close of closed channel
         /\ pc' = [pc EXCEPT ![x] = after[x],
                             ![NW + b] = IF NW + b # x /\ @ = "armed" THEN "off" ELSE @]     \* timer.Stop()
-  /\ UNCHANGED <<dir, ino, progs, opi, myfd, mybat, werr, cerr, after, idx, batchLock, wbatch, res, acked, crashed>>
+  /\ UNCHANGED <<dir, ino, progs, opi, myfd, mybat, werr, cerr, after, idx, batchLock, wbatch, res, acked, crashed, restarted>>
 
 (* timer: syncBatch.sync *)
 TimerFire(x) == /\ pc[x] = "armed" /\ pc' = [pc EXCEPT ![x] = "tl"]
@@ -174,7 +175,7 @@ CNew(t) ==  \* newSyncBatch: open(O_TMPFILE), lock, arm the timer
         /\ res' = Append(res, [t |-> t, k |-> Op(t).k, as |-> Op(t).as, r |-> "err", blamed |-> TRUE])
         /\ pc' = [pc EXCEPT ![t] = "next"]
         /\ UNCHANGED <<fsvars, bat, mybat, acked>>
-  /\ UNCHANGED <<progs, opi, myfd, werr, cerr, after, idx, panic, dblClose, crashed>>
+  /\ UNCHANGED <<progs, opi, myfd, werr, cerr, after, idx, panic, dblClose, crashed, restarted>>
 
 \* sb.write: writev(prefix, data) then linkat; shared by writeCombinedFile (okpc/failpc) and writeBatch
 Writev(x, a, okpc, failpc) ==
@@ -208,9 +209,9 @@ Linkat(x, a, okpc, failpc) ==
      /\ UNCHANGED dir
 
 CW(t) == /\ pc[t] = "cw" /\ Writev(t, A1(t), "cl", "ca")
-         /\ UNCHANGED <<dir, fdt, progs, opi, myfd, mybat, cerr, idx, batchLock, wbatch, res, acked, panic, dblClose, crashed>>
+         /\ UNCHANGED <<dir, fdt, progs, opi, myfd, mybat, cerr, idx, batchLock, wbatch, res, acked, panic, dblClose, crashed, restarted>>
 CL(t) == /\ pc[t] = "cl" /\ Linkat(t, A1(t), "ca", "ca")
-         /\ UNCHANGED <<ino, fdt, progs, opi, myfd, mybat, cerr, idx, batchLock, wbatch, res, acked, panic, dblClose, crashed>>
+         /\ UNCHANGED <<ino, fdt, progs, opi, myfd, mybat, cerr, idx, batchLock, wbatch, res, acked, panic, dblClose, crashed, restarted>>
 
 CA(t) ==  \* the rotation condition
   /\ pc[t] = "ca"
@@ -227,12 +228,12 @@ CU(t) ==  \* sb.lock.Unlock(); w.batchLock.Unlock(); return err or wait
   /\ bat' = [bat EXCEPT ![mybat[t]].lock = 0]
   /\ batchLock' = 0
   /\ IF werr[t] THEN Finish(t, "err") ELSE pc' = [pc EXCEPT ![t] = "cwait"] /\ UNCHANGED <<res, acked>>
-  /\ UNCHANGED <<fsvars, progs, opi, myfd, mybat, werr, cerr, after, idx, hit, wbatch, faults, panic, dblClose, crashed>>
+  /\ UNCHANGED <<fsvars, progs, opi, myfd, mybat, werr, cerr, after, idx, hit, wbatch, faults, panic, dblClose, crashed, restarted>>
 
 CWait(t) ==
   /\ pc[t] = "cwait" /\ bat[mybat[t]].ready = "closed"
   /\ Finish(t, IF bat[mybat[t]].err THEN "err" ELSE "ok")
-  /\ UNCHANGED <<fsvars, progs, opi, myfd, mybat, werr, cerr, after, idx, hit, wvars, faults, panic, dblClose, crashed>>
+  /\ UNCHANGED <<fsvars, progs, opi, myfd, mybat, werr, cerr, after, idx, hit, wvars, faults, panic, dblClose, crashed, restarted>>
 
 -----------------------------------------------------------------------------
 (* linuxWriter.writeBatch *)
@@ -250,11 +251,11 @@ B1(t) ==
         /\ res' = Append(res, [t |-> t, k |-> Op(t).k, as |-> Op(t).as, r |-> "err", blamed |-> TRUE])
         /\ pc' = [pc EXCEPT ![t] = "next"]
         /\ UNCHANGED <<ino, fdt, bat, mybat, idx, acked>>
-  /\ UNCHANGED <<dir, progs, opi, myfd, werr, cerr, after, batchLock, wbatch, panic, dblClose, crashed>>
+  /\ UNCHANGED <<dir, progs, opi, myfd, werr, cerr, after, batchLock, wbatch, panic, dblClose, crashed, restarted>>
 B2(t) == /\ pc[t] = "b2" /\ Writev(t, Op(t).as[idx[t]], "b3", "bfail")
-         /\ UNCHANGED <<dir, fdt, progs, opi, myfd, mybat, cerr, idx, batchLock, wbatch, res, acked, panic, dblClose, crashed>>
+         /\ UNCHANGED <<dir, fdt, progs, opi, myfd, mybat, cerr, idx, batchLock, wbatch, res, acked, panic, dblClose, crashed, restarted>>
 B3(t) == /\ pc[t] = "b3" /\ Linkat(t, Op(t).as[idx[t]], "b4", "bfail")
-         /\ UNCHANGED <<ino, fdt, progs, opi, myfd, mybat, cerr, idx, batchLock, wbatch, res, acked, panic, dblClose, crashed>>
+         /\ UNCHANGED <<ino, fdt, progs, opi, myfd, mybat, cerr, idx, batchLock, wbatch, res, acked, panic, dblClose, crashed, restarted>>
 B4(t) == /\ pc[t] = "b4"
          /\ IF idx[t] = Len(Op(t).as)
               THEN /\ after' = [after EXCEPT ![t] = "bend"] /\ pc' = [pc EXCEPT ![t] = "is1"] /\ UNCHANGED idx
@@ -262,7 +263,7 @@ B4(t) == /\ pc[t] = "b4"
          /\ UNCHANGED <<fsvars, progs, opi, myfd, mybat, werr, cerr, hit, wvars, mvars>>
 BEnd(t) == /\ pc[t] \in {"bend", "bfail"}
            /\ Finish(t, IF pc[t] = "bfail" \/ bat[mybat[t]].err THEN "err" ELSE "ok")
-           /\ UNCHANGED <<fsvars, progs, opi, myfd, mybat, werr, cerr, after, idx, hit, wvars, faults, panic, dblClose, crashed>>
+           /\ UNCHANGED <<fsvars, progs, opi, myfd, mybat, werr, cerr, after, idx, hit, wvars, faults, panic, dblClose, crashed, restarted>>
 
 -----------------------------------------------------------------------------
 (* linuxWriter.writeFile *)
@@ -277,7 +278,7 @@ F1(t) ==
         /\ res' = Append(res, [t |-> t, k |-> Op(t).k, as |-> Op(t).as, r |-> "err", blamed |-> TRUE])
         /\ pc' = [pc EXCEPT ![t] = "next"]
         /\ UNCHANGED <<ino, fdt, myfd, acked>>
-  /\ UNCHANGED <<dir, progs, opi, mybat, werr, cerr, after, idx, wvars, panic, dblClose, crashed>>
+  /\ UNCHANGED <<dir, progs, opi, mybat, werr, cerr, after, idx, wvars, panic, dblClose, crashed, restarted>>
 F2(t) ==
   /\ pc[t] = "f2"
   /\ \/ /\ ino' = WriteFS(ino, fdt, myfd[t], Chunk("raw", A1(t), TRUE))
@@ -291,7 +292,7 @@ F2(t) ==
         /\ ino' = WriteFS(ino, fdt, myfd[t], Chunk("raw", A1(t), FALSE))
         /\ hit' = [hit EXCEPT ![t] = TRUE] /\ werr' = [werr EXCEPT ![t] = TRUE]
         /\ pc' = [pc EXCEPT ![t] = "f4"]
-  /\ UNCHANGED <<dir, fdt, progs, opi, myfd, mybat, cerr, after, idx, wvars, res, acked, panic, dblClose, crashed>>
+  /\ UNCHANGED <<dir, fdt, progs, opi, myfd, mybat, cerr, after, idx, wvars, res, acked, panic, dblClose, crashed, restarted>>
 F3(t) ==
   /\ pc[t] = "f3"
   /\ \/ /\ dir' = IF dir[Obj(A1(t))] # 0 THEN dir ELSE LinkFS(dir, fdt, myfd[t], Obj(A1(t)))
@@ -300,7 +301,7 @@ F3(t) ==
         /\ hit' = [hit EXCEPT ![t] = TRUE] /\ werr' = [werr EXCEPT ![t] = TRUE]
         /\ UNCHANGED dir
   /\ pc' = [pc EXCEPT ![t] = "f4"]
-  /\ UNCHANGED <<ino, fdt, progs, opi, myfd, mybat, cerr, after, idx, wvars, res, acked, panic, dblClose, crashed>>
+  /\ UNCHANGED <<ino, fdt, progs, opi, myfd, mybat, cerr, after, idx, wvars, res, acked, panic, dblClose, crashed, restarted>>
 F4(t) ==
   /\ pc[t] = "f4"
   /\ fdt' = CloseFS(fdt, myfd[t])
@@ -308,7 +309,7 @@ F4(t) ==
      \/ /\ CanFail("close") /\ Fault /\ hit' = [hit EXCEPT ![t] = TRUE]
         /\ res' = Append(res, [t |-> t, k |-> Op(t).k, as |-> Op(t).as, r |-> "err", blamed |-> TRUE])
         /\ pc' = [pc EXCEPT ![t] = "next"] /\ UNCHANGED acked
-  /\ UNCHANGED <<dir, ino, progs, opi, myfd, mybat, werr, cerr, after, idx, wvars, panic, dblClose, crashed>>
+  /\ UNCHANGED <<dir, ino, progs, opi, myfd, mybat, werr, cerr, after, idx, wvars, panic, dblClose, crashed, restarted>>
 
 -----------------------------------------------------------------------------
 (* genericWriter.writeData: "p#i" exclusive, write, close, rename *)
@@ -333,7 +334,7 @@ G1(t) ==
         /\ UNCHANGED <<idx, res, faults, hit>>
      \/ /\ dir[nm] = 0 /\ CanFail("open") /\ Fault /\ GFail(t, TRUE)
         /\ UNCHANGED <<ino, fdt, myfd, idx>>
-  /\ UNCHANGED <<progs, opi, mybat, werr, cerr, after, wvars, acked, panic, dblClose, crashed>>
+  /\ UNCHANGED <<progs, opi, mybat, werr, cerr, after, wvars, acked, panic, dblClose, crashed, restarted>>
 G2(t) ==
   /\ pc[t] = "g2"
   /\ \/ /\ ino' = WriteFS(ino, fdt, myfd[t], Chunk("raw", A1(t), TRUE))
@@ -347,26 +348,26 @@ G2(t) ==
         /\ ino' = WriteFS(ino, fdt, myfd[t], Chunk("raw", A1(t), FALSE))
         /\ fdt' = CloseFS(fdt, myfd[t])
         /\ \E keep \in BOOLEAN : GFail(t, keep)
-  /\ UNCHANGED <<progs, opi, myfd, mybat, werr, cerr, after, idx, wvars, acked, panic, dblClose, crashed>>
+  /\ UNCHANGED <<progs, opi, myfd, mybat, werr, cerr, after, idx, wvars, acked, panic, dblClose, crashed, restarted>>
 G3(t) ==
   /\ pc[t] = "g3"
   /\ fdt' = CloseFS(fdt, myfd[t])
   /\ \/ pc' = [pc EXCEPT ![t] = "g4"] /\ UNCHANGED <<dir, res, faults, hit>>
      \/ CanFail("close") /\ Fault /\ GFail(t, TRUE)
-  /\ UNCHANGED <<ino, progs, opi, myfd, mybat, werr, cerr, after, idx, wvars, acked, panic, dblClose, crashed>>
+  /\ UNCHANGED <<ino, progs, opi, myfd, mybat, werr, cerr, after, idx, wvars, acked, panic, dblClose, crashed, restarted>>
 G4(t) ==
   /\ pc[t] = "g4"
   /\ \/ /\ dir' = RenameFS(dir, Tmp(A1(t), idx[t]), Obj(A1(t)))
         /\ Finish(t, "ok") /\ UNCHANGED <<faults, hit>>
      \/ /\ CanFail("rename") /\ Fault /\ GFail(t, TRUE) /\ UNCHANGED acked
-  /\ UNCHANGED <<ino, fdt, progs, opi, myfd, mybat, werr, cerr, after, idx, wvars, panic, dblClose, crashed>>
+  /\ UNCHANGED <<ino, fdt, progs, opi, myfd, mybat, werr, cerr, after, idx, wvars, panic, dblClose, crashed, restarted>>
 
 -----------------------------------------------------------------------------
 (* FSTree.Delete: stat, unlink *)
 D1(t) ==
   /\ pc[t] = "d1"
   /\ IF dir[Obj(A1(t))] = 0 THEN Finish(t, "nf") ELSE pc' = [pc EXCEPT ![t] = "d2"] /\ UNCHANGED <<res, acked>>
-  /\ UNCHANGED <<fsvars, progs, opi, myfd, mybat, werr, cerr, after, idx, hit, wvars, faults, panic, dblClose, crashed>>
+  /\ UNCHANGED <<fsvars, progs, opi, myfd, mybat, werr, cerr, after, idx, hit, wvars, faults, panic, dblClose, crashed, restarted>>
 D2(t) ==
   /\ pc[t] = "d2"
   /\ \/ /\ dir' = UnlinkFS(dir, Obj(A1(t)))
@@ -374,18 +375,33 @@ D2(t) ==
      \/ /\ CanFail("unlink") /\ Fault /\ hit' = [hit EXCEPT ![t] = TRUE]
         /\ res' = Append(res, [t |-> t, k |-> Op(t).k, as |-> Op(t).as, r |-> "err", blamed |-> TRUE])
         /\ pc' = [pc EXCEPT ![t] = "next"] /\ UNCHANGED <<dir, acked>>
-  /\ UNCHANGED <<ino, fdt, progs, opi, myfd, mybat, werr, cerr, after, idx, wvars, panic, dblClose, crashed>>
+  /\ UNCHANGED <<ino, fdt, progs, opi, myfd, mybat, werr, cerr, after, idx, wvars, panic, dblClose, crashed, restarted>>
 
 -----------------------------------------------------------------------------
-Crash == /\ CrashOn /\ crashed = "no"
+Crash == /\ CrashOn /\ crashed = "no" /\ ~restarted
          /\ crashed' = "crashed"
          /\ fdt' = [i \in DOMAIN fdt |-> 0]
-         /\ UNCHANGED <<dir, ino, pvars, wvars, res, acked, faults, panic, dblClose>>
+         /\ UNCHANGED <<dir, ino, pvars, wvars, res, acked, faults, panic, dblClose, restarted>>
 Reopen == /\ crashed = "crashed" \/ (panic /\ crashed = "no")          \* restart (+ CleanUpTmp)
           /\ crashed' = "reopened"
           /\ dir' = CleanTmpFS(dir)
           /\ fdt' = [i \in DOMAIN fdt |-> 0]
-          /\ UNCHANGED <<ino, pvars, wvars, res, acked, faults, panic, dblClose>>
+          /\ UNCHANGED <<ino, pvars, wvars, res, acked, faults, panic, dblClose, restarted>>
+
+(* Restart after a crash WITHOUT clean-up (CleanUpTmp is a maintenance tool, the node does not run it): every
+   Put of the interrupted run is retried by the same writers (client retry / replication). *)
+PutsOf(p) == SelectSeq(p, LAMBDA o : o.k # "del")
+Restart ==
+  /\ RetryOn /\ crashed = "crashed" /\ ~restarted
+  /\ restarted' = TRUE /\ crashed' = "no"
+  /\ progs' = [t \in Writers |-> PutsOf(progs[t])]
+  /\ pc' = [x \in Execs |-> IF x \in Writers THEN "next" ELSE "off"]
+  /\ opi' = [x \in Writers |-> 0]
+  /\ myfd' = [x \in Execs |-> 0] /\ mybat' = [x \in Execs |-> 0]
+  /\ werr' = [x \in Execs |-> FALSE] /\ cerr' = [x \in Execs |-> FALSE]
+  /\ after' = [x \in Execs |-> ""] /\ idx' = [x \in Execs |-> 0] /\ hit' = [x \in Execs |-> FALSE]
+  /\ batchLock' = 0 /\ wbatch' = 0 /\ bat' = [b \in DOMAIN bat |-> [bat[b] EXCEPT !.lock = 0, !.ready = "closed"]]
+  /\ UNCHANGED <<fsvars, res, acked, faults, panic, dblClose>>
 
 WriterStep(t) == \/ Fetch(t) \/ C1(t) \/ C2(t) \/ CNew(t) \/ CW(t) \/ CL(t) \/ CA(t) \/ CU(t) \/ CWait(t)
                  \/ B1(t) \/ B2(t) \/ B3(t) \/ B4(t) \/ BEnd(t) \/ F1(t) \/ F2(t) \/ F3(t) \/ F4(t)
@@ -396,7 +412,7 @@ Next == \/ /\ Alive
            /\ \/ \E t \in Writers : WriterStep(t)
               \/ \E x \in Timers : TimerStep(x)
               \/ \E x \in Execs : IntSync1(x) \/ IntSync2(x)
-        \/ Crash \/ Reopen
+        \/ Crash \/ Reopen \/ Restart
         \/ (AllDone \/ crashed = "reopened") /\ UNCHANGED vars        \* termination is not a deadlock
 Spec == Init /\ [][Next]_vars
 
